@@ -84,6 +84,15 @@ class ClassV(object):
         self.qual = qual
 
 
+class ClassParamV(object):
+    """a class received as a value: an unknown subclass of `base`"""
+
+    __slots__ = ("base",)
+
+    def __init__(self, base):
+        self.base = base
+
+
 class ModuleV(object):
     __slots__ = ("name",)
 
@@ -145,6 +154,9 @@ def parse_type(s):
         return Type("obj", s[4:])
     if s == "obj":
         return Type("obj", None)
+    if s.startswith("cls:"):
+        # a class object (e.g. a token class handed to a helper): some subclass of the named base
+        return Type("cls", s[4:])
     if s.startswith("map[") and s.endswith("]"):
         k, v = split_top(s[4:-1])
         return Type("map", (parse_type(k), parse_type(v)))
